@@ -185,6 +185,21 @@ def check(tier: str) -> Result:
         spaths: Dict[str, List[T]] = {}
         for p, leaf in spec_paths(vfg, spec):
             spaths.setdefault(p, []).append(leaf)
+        # ---------------------------------------------------------------- R4b boolean leaves: the only bounds a computed
+        # boolean array (mask, adjacency, flags) always satisfies are [False, True]
+        for p_, leaves_ in sorted(spaths.items()):
+            for leaf in leaves_:
+                info = spec_args(leaf)
+                if info is None or info[0] != "BoundedArray" or dtype_cat(info[1].get("dtype")) != "bool":
+                    continue
+                lo_t, hi_t = strip_cast(info[1].get("minimum")) if info[1].get("minimum") is not None else None, strip_cast(info[1].get("maximum")) if info[1].get("maximum") is not None else None
+                def _b(t):
+                    return bool(t.args[0]) if t is not None and t.kind == "const" and isinstance(t.args[0], (bool, int)) else None
+                lo_b, hi_b = _b(lo_t), _b(hi_t)
+                verdict = None if lo_b is None or hi_b is None else (lo_b is False and hi_b is True)
+                osite, ofn = env_site(ea, "observation_spec")
+                res.add("C01.R4b", osite, ofn, f"boolean leaf Observation.{p_} is declared with the bounds [False, True]", verdict,
+                        f"declared [{lo_b}, {hi_b}]" + ("" if verdict in (True, None) else ": every observation in which this array holds the excluded value fails validate()"))
         # ---------------------------------------------------------------- R3
         if ea.cls.name in TIME_LIMITED and "step_count" in spaths:
             T_ = vfg.mk_attr(ea.self_t, "time_limit")
